@@ -42,6 +42,7 @@ deriving Inhabited
 inductive Exc
   | typeError | keyError | indexError | assertionError | attributeError | notImplementedError
   | coreError           -- pykwalify.errors.CoreError (a RuntimeError)
+  | osError             -- IsADirectoryError / PermissionError while opening the data file
   | valueError | configurationError | uiError
 deriving DecidableEq, Repr
 
@@ -330,6 +331,9 @@ structure Cli where
   machine : Option String := none      -- `-m`
   invOverride : Bool := false          -- `-in N`, `-q`, `--setup-only`
   itOverride : Bool := false           -- `-it N`, `-q`, `--setup-only`
+  /-- the file system as far as it matters: configured data-file names that exist but
+  cannot be opened for reading (directories) -/
+  unreadable : List String := []
 deriving Repr
 
 /-- model/__init__.py:31-34 `is_marked_important` -/
@@ -571,10 +575,20 @@ def compileExperiment (cli : Cli) (root : Doc) (dataFile : Doc) (exp : Doc) (d :
         | .str _ => pure true
         | _ => throw .typeError        -- None + ".profiles"
     | _ => pure (if truthy ownFile then true else truthy dataFile)
+  -- the name that is opened (persistence.py:226-233 `_read_start_time`), unless it is the
+  -- derived `….profiles` name
+  let opened : Option String :=
+    match (if truthy ownFile then ownFile else dataFile), action with
+    | .str s, .str "profile" => if truthy ownFile then some s else none
+    | .str s, _ => some s
+    | _, _ => none
   let d1 ← compileDetails exp d
   let v1 := compileVars exp v
   -- persistence.py:196-198
   if !fileOk then throw .valueError
+  match opened with
+  | some s => if s ∈ cli.unreadable then throw .osError
+  | none => pure ()
   let env : Env := { cli := cli, executors := root.getD "executors" (.map []),
                      suites := root.getD "benchmark_suites" (.map []), action := action }
   let suites ← compileExecutions env (exp.getD "executions" .null) (exp.getD "suites" .null) d1 v1
